@@ -16,6 +16,10 @@ pub struct TypeEntry {
     pub decode: DecodeFn,
     /// `bincode::deserialize_from` a reader, then re-encode.
     pub decode_from: DecodeFromFn,
+    /// bincode bytes -> value -> JSON text (another serde format: human-readable)
+    pub to_json: DecodeFn,
+    /// `serde_json::from_slice`, then re-encode as JSON
+    pub decode_json: DecodeFn,
 }
 
 fn dec<T: Serialize + DeserializeOwned>(b: &[u8]) -> Result<Vec<u8>, String> {
@@ -31,12 +35,27 @@ fn dec_from<T: Serialize + DeserializeOwned>(r: &mut dyn Read) -> Result<Vec<u8>
     }
 }
 
+fn to_json<T: Serialize + DeserializeOwned>(b: &[u8]) -> Result<Vec<u8>, String> {
+    match bincode::deserialize::<T>(b) {
+        Ok(v) => serde_json::to_vec(&v).map_err(|e| e.to_string()),
+        Err(e) => Err(e.to_string()),
+    }
+}
+fn dec_json<T: Serialize + DeserializeOwned>(b: &[u8]) -> Result<Vec<u8>, String> {
+    match serde_json::from_slice::<T>(b) {
+        Ok(v) => serde_json::to_vec(&v).map_err(|e| e.to_string()),
+        Err(e) => Err(e.to_string()),
+    }
+}
+
 pub fn entry<T: Serialize + DeserializeOwned>(name: &str) -> TypeEntry {
     TypeEntry {
         name: name.to_string(),
         size_of: std::mem::size_of::<T>(),
         decode: dec::<T>,
         decode_from: dec_from::<T>,
+        to_json: to_json::<T>,
+        decode_json: dec_json::<T>,
     }
 }
 
